@@ -15,7 +15,7 @@ for id in $ids; do
   if ! (cd $w/repo && patch -p1 -s < /verif/seeded/$id/patch.diff); then echo "$id: PATCH-FAILED"; rm -rf $w; continue; fi
   out=$(CBGP_REPO=$w/repo CBGP_VERIF=$w/verif /verif/bin/cbgpcheck check $props 2>&1)
   fired=$(echo "$out" | grep -o 'VIOLATION property=C[0-9]*' | sed 's/VIOLATION property=//' | tr '\n' ' ')
-  own=${id:0:3}
+  own=$(python3 -c "import json;print(json.load(open(\"/verif/seeded/$id/meta.json\"))[\"property\"])")
   mark="MISSED"
   echo "$fired" | grep -q "$own" && mark="caught"
   [ -n "$fired" ] && [ "$mark" = MISSED ] && mark="other-only"
